@@ -23,6 +23,7 @@ def ValidReq : Req → Prop
   | .searchSchedules q => q.id ≠ "" ∧ 0 < q.limit
   | .claimTask q => q.processId ≠ "" ∧ 0 ≤ q.ttl
   | .createPromiseAndTask p tr => p.id = tr.promiseId ∧ p.timeout = tr.timeout
+  | .completePromise q => promiseStateOk q.state = true   -- the store asserts a completion state (resolved / rejected / canceled / timed out)
   | _ => True
 
 instance (r : Req) : Decidable (ValidReq r) := by
@@ -100,6 +101,9 @@ theorem bgOk (d : Dialect) (env : Env) : BgOk d env := fun k t0 lo now h => back
 theorem reqOk (d : Dialect) (env : Env) (r : Req) (hv : ValidReq r) : ReqOk d env r :=
   fun t0 t lo now => request_never_panics d env r hv t0 t lo now
 
+theorem stateOk_of_valid (r : Req) (hv : ValidReq r) : r.StateOk := by
+  cases r <;> simp only [Req.StateOk] <;> first | exact hv | trivial
+
 /-- what a run must respect: submitted requests passed the front ends' validation; the clock given to ticks does not
     step back (a clock stepping back trips elapsed-time assertions: DESIGN observation O3); a thread id started by a
     tick is not in use (the model names submissions by thread id + sequence number where Go uses closures); a router /
@@ -147,7 +151,7 @@ theorem runOkV_runOk (d : Dialect) : ∀ (cs : List Choice) (clk : Time) (s : Sy
     refine ⟨?_, ih _ _ h.2⟩
     have h1 := h.1
     cases c with
-    | submit tid r => exact reqOk d s.env r h1
+    | submit tid r => exact ⟨reqOk d s.env r h1, stateOk_of_valid r h1⟩
     | tick t => exact h1
     | complete id cp => exact h1
     | execStore items => trivial
@@ -164,6 +168,16 @@ theorem server_never_asserts (d : Dialect) (env : Env) (db : Db) (hk : KeysX db)
   have := (run_no_assert d cs _ clk (bgOk d env) (kinv_boot d env db clk hk) (runOkV_runOk d cs clk _ hok)).1 e he
   rw [heq] at this
   cases this
+
+/-- **the store never asserts.** Along every such run, no store batch fails with an assertion of the store layer (a
+    search without a pattern, a completion state outside resolved / rejected / canceled / timed out, a task command
+    without states, …) — in the Go code those panic the store's worker goroutine and take the process down.  Store
+    batches may still fail: with an injected failure, or with the UNIQUE violation of a registration whose derived id
+    collides with an existing task (finding F2) — never with an assertion. -/
+theorem store_never_asserts (d : Dialect) (env : Env) (db : Db) (hk : KeysX db) (clk : Time) (cs : List Choice)
+    (hok : RunOkV clk (Sys.boot env d (defs d) db) cs) :
+    ∀ e ∈ (Sys.boot env d (defs d) db).runErrs cs, ∀ m, e ≠ .assertion m :=
+  run_store_no_assert d cs _ clk (bgOk d env) (kinv_boot d env db clk hk) (runOkV_runOk d cs clk _ hok)
 
 /-- **the server never stops.** Along every such run the kernel never halts: not on an assertion, and not by a
     coroutine running away (every coroutine reaches its next blocking submission, a response or a restart within a
